@@ -4,10 +4,10 @@ package fsmworld
 
 import (
 	"fmt"
-	"strings"
 	"math/rand/v2"
 	"reflect"
 	"sort"
+	"strings"
 	"testing"
 	"time"
 
@@ -89,7 +89,7 @@ func (w C04) Execute(t *testing.T, pl simkit.Plan, r *simkit.Run) (v *simkit.Vio
 type holderView struct {
 	keys     map[string]structs.DirEntry // all keys
 	sessions map[string]*structs.Session
-	links    []string // sessions named by session_checks rows
+	links    []string          // sessions named by session_checks rows
 	queries  map[string]string // query id -> session
 }
 
